@@ -155,3 +155,39 @@ include hf in theorem d_root_pos (n : ℕ) (hn : 2 ≤ n) (h : 0 < f x) :
           | linear_combination (f' * (n:ℝ)) * key | linear_combination (-(f' * (n:ℝ))) * key
   rw [e]; exact h1
 end adequacy
+
+/-! ### root of products / quotients / roots (positive arguments) -/
+theorem ax_root_mul_pos (a b : ℝ) (n : ℕ) (ha : 0 < a) (hb : 0 < b) :
+    sroot (a * b) n = sroot a n * sroot b n := by
+  have hab : 0 ≤ a * b := le_of_lt (mul_pos ha hb)
+  unfold sroot
+  simp [hab, le_of_lt ha, le_of_lt hb, Real.mul_rpow (le_of_lt ha) (le_of_lt hb)]
+
+theorem ax_root_div_pos (a b : ℝ) (n : ℕ) (ha : 0 < a) (hb : 0 < b) :
+    sroot (a / b) n = sroot a n / sroot b n := by
+  have hab : 0 ≤ a / b := le_of_lt (div_pos ha hb)
+  unfold sroot
+  simp [hab, le_of_lt ha, le_of_lt hb, Real.div_rpow (le_of_lt ha) (le_of_lt hb)]
+
+theorem ax_root_root_pos (y : ℝ) (m n : ℕ) (hy : 0 < y) (hm : 1 ≤ m) (hn : 1 ≤ n) :
+    sroot (sroot y m) n = sroot y (m * n) := by
+  have h0 : 0 ≤ y := le_of_lt hy
+  have e1 : sroot y m = y ^ ((1:ℝ) / m) := by unfold sroot; simp [h0]
+  have hp : 0 ≤ y ^ ((1:ℝ) / m) := Real.rpow_nonneg h0 _
+  have hm0 : (m:ℝ) ≠ 0 := by positivity
+  have hn0 : (n:ℝ) ≠ 0 := by positivity
+  rw [e1]
+  unfold sroot
+  simp only [hp, h0, if_true]
+  rw [← Real.rpow_mul h0]
+  congr 1
+  push_cast
+  field_simp
+
+theorem ax_ipow_root_same (y : ℝ) (n : ℕ) (hn : 1 ≤ n) (hy : 0 < y ∨ (Odd n ∧ y ≠ 0)) :
+    (sroot y n) ^ n = y := by
+  rcases hy with h | ⟨ho, hne⟩
+  · exact (ax_root_pos y n h hn).2.2
+  · rcases lt_or_gt_of_ne hne with h | h
+    · exact (ax_root_neg_odd y n h ho).2
+    · exact (ax_root_pos y n h hn).2.2
